@@ -295,7 +295,7 @@ def build_files(ws):
     """BUILD.json text per package"""
     pk = {}
     for l, t in sorted(ws["targets"].items()):
-        d = {"name": t["name"], "command": cmd_text(ws, l)}
+        d = {"name": t["name"]} if t.get("nocmd") else {"name": t["name"], "command": cmd_text(ws, l)}
         if t["globs"]:
             d["inputs"] = list(t["globs"])
         if t.get("excl"):
@@ -524,7 +524,7 @@ def taints(root_dir):
 
 
 def build_args(step, force_minimal=None):
-    minimal = step.get("minimal", False) if force_minimal is None else force_minimal
+    minimal = step.get("minimal", False) if (force_minimal is None or step.get("pin_mode")) else force_minimal
     a = ["build"] + list(step["patterns"])
     a.append("--load-outputs=" + ("minimal" if minimal else "all"))
     if not step.get("enable_cache", True):
@@ -579,6 +579,15 @@ def run_real(grog, hist, base, force_minimal=None, upto=None):
                     os.remove(os.path.join(c, "cas", dig))
                 except FileNotFoundError:
                     pass
+        elif s["k"] == "run":
+            # `grog run <targets>`: builds the run targets, then starts their bin outputs; lines the binaries print that start
+            # with RUN: are the observation
+            mode = s.get("minimal", False) if (force_minimal is None or s.get("pin_mode")) else force_minimal
+            rc, out = run_grog(grog, wsdir, root_dir, trace, ["run", "--load-outputs=" + ("minimal" if mode else "all")] + list(s["targets"]))
+            ex, pos = read_trace(trace, pos)
+            obs.append({"ok": rc == 0, "rc": rc, "executed": ex, "fs": {p: read_path(wsdir, p) for p in watch}, "pre": {}, "pre_tainted": [],
+                        "cas_rewritten": [], "cas_misnamed": [], "tainted": taints(root_dir), "log": out[-1500:],
+                        "run_out": sorted(x for x in out.split("\n") if x.startswith("RUN:"))})
         elif s["k"] == "build":
             pre = {p: read_path(wsdir, p) for p in watch}
             pre_taint = taints(root_dir)
@@ -660,7 +669,7 @@ def model_request(hist, fixes=ALL_FIXES, force_minimal=None):
         elif s["k"] == "drop":
             steps.append({"k": "drop", "path": s["path"]})
         elif s["k"] == "build":
-            minimal = s.get("minimal", False) if force_minimal is None else force_minimal
+            minimal = s.get("minimal", False) if (force_minimal is None or s.get("pin_mode")) else force_minimal
             steps.append({"k": "build", "enableCache": s.get("enable_cache", True), "minimal": minimal,
                           "order": selected(ws, s["patterns"]), "watch": watch, "labels": sorted(ws["targets"])})
     return {"op": "build.simulate", "fx": {k: fixes[k] for k in ("gateChecks", "syncTaint", "rerunOnce", "minValidate", "loadFault")},
@@ -696,7 +705,7 @@ def run_real_many(grog, hists, scratch, par=4, force_minimal=None, prefix="h"):
 
 
 def build_steps(hist):
-    return [s for s in hist["steps"] if s["k"] == "build"]
+    return [s for s in hist["steps"] if s["k"] in ("build", "run")]
 
 
 def compare(hist, real, model, multiset=True):
@@ -1559,6 +1568,8 @@ def describe(hist):
             out.append("drop-blob " + s["path"])
         elif s["k"] == "relocate":
             out.append("relocate workspace (same cache)")
+        elif s["k"] == "run":
+            out.append("run " + " ".join(s["targets"]) + (" minimal" if s.get("minimal") else ""))
         else:
             fl = ("" if s.get("enable_cache", True) else " --enable-cache=false") + (" minimal" if s.get("minimal") else "") + \
                  (" --fail-fast" if s.get("fail_fast") else "")
@@ -1604,6 +1615,96 @@ def gen_swap(rng, nocache=True):
     return {"ws": ws, "algo": rng.choice(["xxh3", "sha256"]),
             "steps": [dict(b), {"k": "edit", "ws": ws2, "writes": [], "what": "swap contents of pa/x.in and pa/y.in"}, dict(b)],
             "tags": ["swap", "oracle-only"]}
+
+
+def gen_collector(rng):
+    """command-less collector: gen_a -> dist/a.txt, gen_b -> dist/b.txt, bundle (NO command, deps gen_a gen_b, own input manifest)
+    declares dir::dist, site reads the bundle. (Overlapping outputs are legal between targets ordered by a dependency.)"""
+    va, vb = rng.randint(0, 99), rng.randint(0, 99)
+    ws = {"targets": {}, "aliases": {}, "links": {},
+          "files": {"pc/a.src": "A%d\n" % va, "pc/b.src": "B%d\n" % vb, "pc/manifest.txt": "m0\n"}}
+    ws["targets"]["//pc:gen_a"] = raw_target("pc", "gen_a", ["a.src"], [], ["dist/a.txt"], "mkdir -p dist; cat a.src > dist/a.txt")
+    ws["targets"]["//pc:gen_b"] = raw_target("pc", "gen_b", ["b.src"], [], ["dist/b.txt"], "mkdir -p dist; cat b.src > dist/b.txt")
+    bundle = raw_target("pc", "bundle", ["manifest.txt"], ["//pc:gen_a", "//pc:gen_b"], [], "")
+    bundle["outs"] = [{"dir": True, "rel": "dist"}]
+    bundle["nocmd"] = True
+    ws["targets"]["//pc:bundle"] = bundle
+    ws["targets"]["//ps:site"] = raw_target("ps", "site", [], ["//pc:bundle"], ["site.txt"], "cat ../pc/dist/a.txt ../pc/dist/b.txt > site.txt")
+    b = {"k": "build", "patterns": ["//..."], "minimal": False, "enable_cache": True, "fail_fast": False}
+    steps = [dict(b)]
+    cur = ws
+
+    def edit(f, c, what, writes=()):
+        nonlocal cur
+        w2 = copy.deepcopy(cur)
+        w2["files"][f] = c
+        steps.append({"k": "edit", "ws": w2, "writes": list(writes), "what": what})
+        cur = w2
+    edit("pc/a.src", "A%d\n" % (va + 100), "content of pc/a.src")
+    steps.append(dict(b))
+    edit("pc/a.src", "A%d\n" % va, "content of pc/a.src back to the first version")
+    edit("pc/manifest.txt", "m1\n", "content of pc/manifest.txt (the command-less collector must be rebuilt)")
+    steps.append(dict(b))
+    if rng.random() < 0.7:
+        wipe = [["pc/dist", None], ["ps/site.txt", None]]
+        steps.append({"k": "edit", "ws": cur, "writes": wipe, "what": "tamper: wipe all declared outputs"})
+        edit("pc/manifest.txt", "m2\n", "content of pc/manifest.txt")
+        steps.append(dict(b))
+    return {"ws": ws, "algo": rng.choice(["xxh3", "sha256"]), "steps": steps, "tags": ["collector", "oracle-only"]}
+
+
+def gen_runchain(rng):
+    """`grog run` of generated binaries: data -> a (bin, prints data's output at run time) -> b (bin); histories of
+    `grog run //:a //:b` / `grog run //:a` with reverts, wipes and edits"""
+    d0 = rng.randint(0, 99)
+    ws = {"targets": {}, "aliases": {}, "links": {},
+          "files": {"pr/data.src": "D%d\n" % d0,
+                    "pr/a.src": "#!/bin/sh\nset -e\necho \"RUN:a data=$(cat \"$GROG_WORKSPACE_ROOT/pr/data.out\")\"\n",
+                    "pr/b.src": "#!/bin/sh\necho RUN:b v0\n"}}
+    ws["targets"]["//pr:data"] = raw_target("pr", "data", ["data.src"], [], ["data.out"], "cp data.src data.out")
+    a = raw_target("pr", "a", ["a.src"], ["//pr:data"], [], "cp a.src a.bin")
+    a["bin"] = "a.bin"
+    a["binraw"] = True
+    bb = raw_target("pr", "b", ["b.src"], ["//pr:a"], [], "cp b.src b.bin")
+    bb["bin"] = "b.bin"
+    bb["binraw"] = True
+    ws["targets"]["//pr:a"] = a
+    ws["targets"]["//pr:b"] = bb
+    steps = []
+    cur = ws
+    ver = [0]
+
+    def run(ts):
+        steps.append({"k": "run", "targets": ts, "minimal": False})
+
+    def edit(f, c, what):
+        nonlocal cur
+        w2 = copy.deepcopy(cur)
+        w2["files"][f] = c
+        steps.append({"k": "edit", "ws": w2, "writes": [], "what": what})
+        cur = w2
+
+    def edit_b():
+        ver[0] += 1
+        edit("pr/b.src", "#!/bin/sh\necho RUN:b v%d\n" % ver[0], "content of pr/b.src")
+    both = ["//pr:a", "//pr:b"]
+    run(both)
+    for _ in range(rng.randint(3, 5)):
+        r = rng.random()
+        if r < 0.3:
+            edit("pr/data.src", "D%d\n" % rng.randint(100, 199), "content of pr/data.src")
+        elif r < 0.55:
+            edit("pr/data.src", "D%d\n" % d0, "content of pr/data.src back to the first version")
+            edit_b()
+        elif r < 0.8:
+            steps.append({"k": "edit", "ws": cur, "writes": [["pr/data.out", None], ["pr/a.bin", None], ["pr/b.bin", None]],
+                          "what": "tamper: wipe all declared outputs"})
+            if rng.random() < 0.6:
+                edit_b()
+        else:
+            edit_b()
+        run(both if rng.random() < 0.65 else [rng.choice(both)])
+    return {"ws": ws, "algo": rng.choice(["xxh3", "sha256"]), "steps": steps, "tags": ["run", "oracle-only"]}
 
 
 # ------------------------------------------------------------------------------------------------
@@ -1714,7 +1815,7 @@ def truncate(hist, nbuilds):
     out, n = [], 0
     for s in hist["steps"]:
         out.append(s)
-        if s["k"] == "build":
+        if s["k"] in ("build", "run"):
             n += 1
             if n == nbuilds:
                 break
@@ -1892,7 +1993,9 @@ def walk(hist, real):
             ws = s["ws"]
         elif s["k"] == "taint":
             tp += s["patterns"]
-        elif s["k"] == "build":
+        elif s["k"] in ("build", "run"):
+            if s["k"] == "run":
+                s = dict(s, patterns=list(s["targets"]))
             if n >= len(obs):
                 return
             rec = {"n": n, "step": s, "ws": ws, "obs": obs[n], "prev": prev, "taints_since": tp, "edits_since": es}
